@@ -187,6 +187,38 @@ fn try_opt_o(o: Option<i64>, b: i64) -> Option<i64> {
     Some(x.wrapping_add(b))
 }
 
+// effectful operands: evaluated exactly once, like the operand of `?`
+fn try_k_fx(r: Result<i64, i64>, b: i64) -> Result<i64, i64> {
+    let x = try_!({ tick(); tick(); r });
+    tick();
+    Ok(x.wrapping_add(b))
+}
+fn try_o_fx(r: Result<i64, i64>, b: i64) -> Result<i64, i64> {
+    let x = { tick(); tick(); r }?;
+    tick();
+    Ok(x.wrapping_add(b))
+}
+fn try_k_map_fx(r: Result<i64, i64>, b: i64) -> Result<i64, String> {
+    let x = try_!({ tick(); tick(); r }, map_err = |e| { tick(); tick(); tick(); tick(); format!("E{e}/{b}") });
+    tick();
+    Ok(x.wrapping_add(b))
+}
+fn try_o_map_fx(r: Result<i64, i64>, b: i64) -> Result<i64, String> {
+    let x = { tick(); tick(); r }.map_err(|e| { tick(); tick(); tick(); tick(); format!("E{e}/{b}") })?;
+    tick();
+    Ok(x.wrapping_add(b))
+}
+fn try_opt_k_fx(o: Option<i64>, b: i64) -> Option<i64> {
+    let x = try_opt!({ tick(); tick(); o });
+    tick();
+    Some(x.wrapping_add(b))
+}
+fn try_opt_o_fx(o: Option<i64>, b: i64) -> Option<i64> {
+    let x = { tick(); tick(); o }?;
+    tick();
+    Some(x.wrapping_add(b))
+}
+
 fn try_macros(pos: bool, a: i64, b: i64) -> Result<(), String> {
     let r: Result<i64, i64> = if pos { Ok(a) } else { Err(a) };
     same!("try_!", try_k(r, b), try_o(r, b));
@@ -194,6 +226,9 @@ fn try_macros(pos: bool, a: i64, b: i64) -> Result<(), String> {
     same!("try_!(map_err = || ..)", try_k_map_nopat(r, b), r.map_err(|_| format!("E/{b}")).map(|x| { tick(); x.wrapping_add(b) }));
     let o = if pos { Some(a) } else { None };
     same!("try_opt!", try_opt_k(o, b), try_opt_o(o, b));
+    same!("try_!(effectful operand)", try_k_fx(r, b), try_o_fx(r, b));
+    same!("try_!(effectful operand, counted map_err)", try_k_map_fx(r, b), try_o_map_fx(r, b));
+    same!("try_opt!(effectful operand)", try_opt_k_fx(o, b), try_opt_o_fx(o, b));
     Ok(())
 }
 
